@@ -36,15 +36,22 @@ def find_peaks(data, min_peak_distance, min_peak_height):
 
 @_nb.njit()
 def _find_peaks_numba_core(data, maximas, min_peak_distance):
+    # Eliminated candidates are flagged in a mask: they keep their position (used for distances) and never take part in later comparisons.
+    removed = _np.zeros(len(maximas), dtype=_np.bool_)
     for i in range(len(maximas)):
+        if removed[i]:
+            continue
         p = i
         while p < (len(maximas) - 1) and abs(maximas[i] - maximas[p + 1]) < min_peak_distance:
             p += 1
+            if removed[p]:
+                continue
             if data[maximas[i]] < data[maximas[p]]:
-                maximas[i] = -1
+                removed[i] = True
+                break
             else:
-                maximas[p] = -1
-    return maximas[maximas > -1]
+                removed[p] = True
+    return maximas[~removed]
 
 
 class Direction(_Enum):
